@@ -137,9 +137,11 @@ theorem addMany_inv (c : HCfg) (t : HashTable) (kvs : List (Key × Nat)) (m : Me
 
 /-- **reallocations are logarithmic**: any number of insertions into a table of capacity `c₀` performs
 exactly `j` bucket-array allocations where the final capacity is `c₀ · 2^j` (the remaining allocations
-are one per new entry), and — for a load factor of at least 0.25 (`x / 4 ≤ thr x`) — when any
+are one per new entry), and — for a load factor of at least 0.25, stated only at the capacities a
+table can have (`2^k / 4 ≤ thr (2^k)` for `k < 32`; the shipped `(size_t)(x * 0.25f)` is exact at
+powers of two but not at every `x`) — when any
 reallocation happened the final capacity is below `8 · (size + 1)`, so `j ≤ log2 (8 · (size + 1))`. -/
-theorem addMany_count (c : HCfg) (hthr : ∀ x, x / 4 ≤ c.thr x) (t : HashTable) (kvs : List (Key × Nat)) (m : Mem)
+theorem addMany_count (c : HCfg) (hthr : ∀ k, k < 32 → 2 ^ k / 4 ≤ c.thr (2 ^ k)) (t : HashTable) (kvs : List (Key × Nat)) (m : Mem)
     (h : t.Inv c) :
     ∃ j, (addMany c t kvs m).1.capacity = t.capacity * 2 ^ j ∧
       allocsOf (addMany c t kvs m).2 t.triple = allocsOf m t.triple + j + ((addMany c t kvs m).1.size - t.size) ∧
@@ -165,7 +167,14 @@ theorem addMany_count (c : HCfg) (hthr : ∀ x, x / 4 ≤ c.thr x) (t : HashTabl
         · left; omega
         · right
           rw [b1]; simp only [Nat.pow_zero, Nat.mul_one]
-          have := hthr ((t.add c kv.1 kv.2 m).2.1.capacity / 2)
+          obtain ⟨k1, hk1, hc1⟩ := hinv.1
+          have : (t.add c kv.1 kv.2 m).2.1.capacity / 2 / 4 ≤ c.thr ((t.add c kv.1 kv.2 m).2.1.capacity / 2) := by
+            rw [hc1]
+            cases k1 with
+            | zero => simp
+            | succ k =>
+              have : 2 ^ (k + 1) / 2 = 2 ^ k := by rw [Nat.pow_succ]; omega
+              rw [this]; exact hthr k (by omega)
           omega
       · right; exact b5
 
